@@ -970,8 +970,13 @@ def json_compat_obj_decode(data_type, obj, caller_permissions=None,
         return decoder.make_stone_friendly(
             data_type, obj, True)
     else:
-        return decoder.json_compat_obj_decode_helper(
+        ret = decoder.json_compat_obj_decode_helper(
             data_type, obj)
+        if isinstance(data_type, (bv.List, bv.Map, bv.Nullable)):
+            # Items of a container are validated when it is assigned to a
+            # struct field or union member; a top-level one is not assigned.
+            ret = data_type.validate(ret)
+        return ret
 
 def _strftime(dt, fmt):
     return dt.strftime(fmt)
